@@ -148,6 +148,16 @@ CHECKS = {
         "Trusted: own binning rule and per-mode sums (numpy). Bounds on N. Empty bins under 'average' (mean of an empty set) are outside the property and masked.",
         "DESIGN.md §4 C17",
     ),
+    "C20": (
+        "bounded exhaustive exploration of the discrete option space: every exported stepper class x D x all single-edit shape mutations; every guard x argument combination",
+        "Every public stepper class (catalogue variants plus a run-time enumeration of the package exports with default arguments, so a new class is "
+        "covered automatically), RepeatedStepper and Poisson are called with the correct shape (must be accepted, same shape out) and with ALL "
+        "single-edit mutations of it (channel +-1, dropped/extra/leading/trailing axes, every axis length +-1, ...), each of which must raise "
+        "ValueError. Dimension guards, derivative-order parity guards for orders 0..7, channel-count guards and the documented invalid option "
+        "combinations of generators, metrics and window utilities are enumerated as a full product.",
+        "Trusted: nothing beyond Python exception semantics. The rejection must be a ValueError; another exception type is reported as a violation.",
+        "DESIGN.md §4 C20",
+    ),
 }
 
 NOT_YET = "harness not built yet in this session (planned, see DESIGN.md §4)"
